@@ -109,6 +109,36 @@ template <typename T> static void dist_case(rng& g, int m, int k)
     }
 }
 
+// results of very long runs: more than 2^32 calls each (counters as 20-bit limbs; the combination by variance does not depend on them)
+template <typename T> static void big_case(rng& g)
+{
+    int m = 1 + (int) g.below(3);
+    std::vector<rdesc> rs;
+    std::vector<hep::mc_result<T>> v;
+    std::string Ns = "[";
+    unsigned long long total = 0;
+    for (int j = 0; j != m; ++j)
+    {
+        rdesc r = pick(g);
+        if (r.nz == 0) { r.nz = 1; r.e4 = 2; r.vn = 1; r.vd = 1; }
+        unsigned long long N = (1ULL << (32 + g.below(3))) + g.below(1000000);
+        total += N;
+        T value = T(r.e4) / T(4);
+        T error = std::sqrt(T(r.vn) / T(r.vd));
+        v.push_back(hep::create_result<T>((std::size_t) N, (std::size_t) N, (std::size_t) N, value, error));
+        r.N = 2; r.nz = 2; r.fin = 2; // placeholders for the specification's record (the estimate does not depend on them)
+        rs.push_back(r);
+        Ns += std::string(j ? "," : "") + "[" + std::to_string(N >> 20) + "," + std::to_string(N & ((1ULL << 20) - 1)) + "]";
+    }
+    Ns += "]";
+    auto wv = hep::accumulate<hep::weighted_with_variance>(v.begin(), v.end());
+    unsigned long long oc = wv.calls(), onz = wv.non_zero_calls(), ofin = wv.finite_calls();
+    std::vector<long long> pr = project(wv, 0);
+    ev("CombBig").s("T", type_name<T>::get()).i("m", m).a("rs", flat(rs)).raw("Ns", Ns)
+        .a("outN", std::vector<long long>{(long long) (oc >> 20), (long long) (oc & ((1ULL << 20) - 1))})
+        .i("sameCounters", (onz == oc && ofin == oc) ? 1 : 0).i("E", pr[3]).i("V", pr[4]).emit();
+}
+
 template <typename T> static void family(rng& g, bool thorough)
 {
     static int const ks[3] = {0, -40, 40};
@@ -124,6 +154,7 @@ template <typename T> static void family(rng& g, bool thorough)
         // every rotation must give the same combination (order independence is also checked by the spec's exact value)
         if (m >= 2 && i % 4 == 0) { std::vector<rdesc> rot(rs.begin() + 1, rs.end()); rot.push_back(rs[0]); seq_case<T>(rot, k); }
     }
+    for (int i = 0; i != (thorough ? 100 : 25); ++i) big_case<T>(g);
     for (int i = 0; i != (thorough ? 60 : 12); ++i) dist_case<T>(g, (int) g.below(4), sizeof(T) == 4 ? 0 : ks[g.below(3)]);
 }
 
